@@ -1,8 +1,11 @@
 package checks
 
 import (
+	"crypto"
 	"encoding/xml"
+	"errors"
 	"fmt"
+	"io"
 	"net/http/httptest"
 	"strings"
 	"time"
@@ -462,6 +465,95 @@ func runC06(c *core.Ctx) {
 			t.Sample(map[string]interface{}{"case": key, "action": d.Form.Action, "encrypted": d.Encrypted, "sig_alg": d.RespSigAlg})
 		})
 	})
+	c06SignerHiccup(c, shapes, sessions)
+}
+
+// hiccupSigner is a crypto.Signer (an HSM, a KMS client) whose k-th Sign call fails once.
+type hiccupSigner struct {
+	inner crypto.Signer
+	k, n  int
+}
+
+func (h *hiccupSigner) Public() crypto.PublicKey { return h.inner.Public() }
+func (h *hiccupSigner) Sign(r io.Reader, digest []byte, o crypto.SignerOpts) ([]byte, error) {
+	h.n++
+	if h.n == h.k {
+		return nil, errors.New("signer: temporarily unavailable")
+	}
+	return h.inner.Sign(r, digest, o)
+}
+
+// c06SignerHiccup: the external signer fails on its k-th call; the caller tries WriteResponse again on the same request (up to three
+// times). Whatever is emitted - at any attempt - carries both signatures, valid; an error is fine, a half-signed response is not.
+func c06SignerHiccup(c *core.Ctx, shapes []c06Shape, sessions []c06Session) {
+	c.Group("retry-after-a-failed-signature")
+	for _, kn := range []string{"idp1", "idpec"} {
+		for si, sh := range shapes {
+			if si > 3 {
+				continue
+			}
+			for k := 1; k <= 5; k++ {
+				kn, sh, k := kn, sh, k
+				key := fmt.Sprintf("signer-hiccup/key=%s/shape=%s/failing-sign-call=%d", kn, sh.name, k)
+				c.Case(key, func(t *core.T) {
+					t.NonTrivial()
+					md := sh.metadata()
+					sess := sessions[0].s
+					idp := harness.NewIDP(kn, harness.SPRegistry{md.EntityID: md}, &sess)
+					kp := samlgen.Key(kn)
+					idp.Key, idp.Signer = nil, &hiccupSigner{inner: kp.Key, k: k}
+					if kn == "idpec" {
+						idp.SignatureMethod = dsig.ECDSASHA256SignatureMethod
+					}
+					doc := authnRequestXML(samlgen.S(samlgen.SPEntity), samlgen.S(samlgen.IDPSSO), samlgen.S("2.0"), samlgen.S(samlgen.TS(samlgen.T0)), nil, nil, "id-req-c06-hiccup")
+					var bodies [][]byte
+					var errs []string
+					_, p := guard(func() error {
+						req, err := saml.NewIdpAuthnRequest(idp, idpRequest("POST", doc, "relay"))
+						if err != nil {
+							return err
+						}
+						if err := req.Validate(); err != nil {
+							return err
+						}
+						if err := (saml.DefaultAssertionMaker{}).MakeAssertion(req, &sess); err != nil {
+							return err
+						}
+						for attempt := 0; attempt < 3; attempt++ {
+							w := httptest.NewRecorder()
+							err := req.WriteResponse(w)
+							t.Impl(1)
+							if err != nil {
+								errs = append(errs, err.Error())
+							}
+							if w.Body.Len() > 0 {
+								bodies = append(bodies, w.Body.Bytes())
+							}
+						}
+						return nil
+					})
+					if p != "" {
+						t.Fail("C06/signer-hiccup/panic@"+p[strings.LastIndex(p, "@")+1:], "panicked: %s", p)
+						return
+					}
+					t.Compared()
+					t.Outcome(fmt.Sprintf("emitted=%d errors=%d", len(bodies), len(errs)))
+					for i, b := range bodies {
+						d, err := decodeIDPForm(b, spKey(), kp.Cert, samlgen.T0)
+						if err != nil {
+							t.Fail("C06/signer-hiccup/undecodable", "%s, emission %d: %v", key, i+1, err)
+							return
+						}
+						if !d.RespSigOK || !d.AssSigOK {
+							t.Fail("C06/signer-hiccup/half-signed-response", "%s, emission %d (signer errors so far: %v): Response signatures=%d valid=%v (%s); Assertion signatures=%d valid=%v (%s)", key, i+1, errs, d.RespSigs, d.RespSigOK, d.RespSigErr, d.AssSigs, d.AssSigOK, d.AssSigErr)
+							t.Input("page", string(trunc(b, 3000)))
+							return
+						}
+					}
+				})
+			}
+		}
+	}
 }
 
 // optional AuthnRequest content (schema order: after Issuer) that names identities or formats
